@@ -47,7 +47,7 @@ HEAVY = {"tb"}
 def budget(tier):
     if tier == "thorough":
         return {"runs": 8000, "wall": 1500, "chunk": 4, "minimise_s": 150}
-    return {"runs": 480, "wall": 170, "chunk": 4, "minimise_s": 50}
+    return {"runs": 700, "wall": 250, "chunk": 4, "minimise_s": 50}
 
 
 def prepare(tier):
